@@ -87,6 +87,11 @@ for arch, vdef in ARCHS:
         id="C11.SkipContainer@" + arch, src="c11_skip.c", harness="h_SkipContainer", units=arch_units(arch) + ["IsSpace"] + ESC + SKIP_LEAVES, defs=[vdef, "UNIT_SkipContainer"], arch=arch,
         route="U", function="SkipContainer", enforce="SkipContainer", replace=["GetStringBits", "memcpy"], loop_contracts=True, expect_loops=3, timeout=2400, thorough_only=True,
         claims="any len <= 2^31-65, any pos <= len: block reads stay inside the input; the tail is copied into the zeroed 64-byte buffer with len-pos < 64; closed => old pos < pos' <= len; never closed => pos' <= len (thorough tier only: about 20 min per instantiation)"))
+for n in (16, 32, 64):
+    C11_JOBS.append(dict(
+        id="C11.GetEscaped_%d" % n, src="c11_skip.c", harness="h_GetEscaped", units=arch_units("avx2") + ["IsSpace"] + ESC + SKIP_LEAVES, defs=["VEC_LEN=32", "UNIT_GetEscaped", "GE_N=%d" % n], arch="avx2",
+        route="L", function="GetEscaped<%d>" % n, unwind=66, replay="getescaped", timeout=600,
+        claims="all backslash masks and both carry-in values: the escaped-character mask and the carry-out equal a scalar left-to-right reference"))
 C11_JOBS.append(dict(
     id="C11.skip_space_safe", src="c11_space.c", harness="h_skip_space_safe", units=arch_units("avx2") + ["IsSpace", "avx2.GetNonSpaceBits", "skip_space_safe"],
     defs=["VEC_LEN=32"], arch="avx2", route="U", function="skip_space_safe", enforce="skip_space_safe", replace=["GetNonSpaceBits"],
@@ -186,6 +191,8 @@ for arch, vdef in ARCHS:
     # Quote itself: three routes were built and none finished within 30 min / 60 GB on this machine (DESIGN section 12): DFCC loop
     # contracts with pointer re-basing, DFCC function contract with unwound loops (nb <= 2*VEC_LEN+8), and plain CBMC against callee
     # contract stubs (nb <= VEC_LEN+8). The harnesses stay in specs/c09_quote.c (h_Quote, h_Quote_exact, h_Quote_stubs); no job runs them.
+# (a fourth route, Quote's tail block as a verbatim fragment with constant-size objects and -DPAGE_SIZE=256 — unit "Quote.tail",
+#  harness h_Quote_tail — also timed out at 15 min; no job runs it)
 C09_JOBS.append(dict(id="C09.tables", src="c09_quote.c", harness="h_quote_tables", units=C09_JOBS[0]["units"], defs=["VEC_LEN=32"], arch="avx2", route="L", function="kQuoteTab / kNeedEscaped",
     replay="quotetab", claims="all 256 bytes: need-escape flag, escape length (0/2/6) and escape text equal RFC 8259 section 7; the 8 bytes DoEscape copies are readable"))
 C09_JOBS.append(dict(id="C09.DoEscape", src="c09_quote.c", harness="h_DoEscape", units=C09_JOBS[0]["units"], defs=["VEC_LEN=32"], arch="avx2", route="U", function="DoEscape",
@@ -306,7 +313,7 @@ PROPS["C04"] = dict(level="other", jobs=C04_JOBS, trusted_base=COMMON_TRUST, ass
 # ===================================================================================== C15 (same contracts for both x86 instantiations)
 import copy
 C15_JOBS = []
-for src_prop, pick in (("C11", ("GetNonSpaceBits@", "GetNextToken_3@", "GetNextToken_4@", "SkipString@", "GetStringBits@")),
+for src_prop, pick in (("C11", ("GetNonSpaceBits@", "GetNextToken_3@", "GetNextToken_4@", "SkipString@", "GetStringBits@", "GetEscaped_")),
                        ("C05", ("StringBlock@",)), ("C09", ("CopyAndGetEscapMask@",))):
     for j in PROPS[src_prop]["jobs"]:
         if any(("." + p) in j["id"] for p in pick):
@@ -337,3 +344,36 @@ MODEL_TRUST[:] = [
     "models/intrin.h: byte-lane models of the Intel intrinsics (compared with the CPU on sampled and edge-case vectors every run: native steps validate_models)",
     "models/simdwrap.h: models of the sonic simd.h wrapper idioms (compared with the real simd256/simd128/simd8x64 classes on sampled vectors every run: native steps validate_wrap_*)",
 ]
+
+
+# ===================================================================================== assumptions / undecided residue reported in every evidence file
+_COMMON_ASSUME = ["CBMC 6.11 is sound for the checks enabled; machine arithmetic is 64-bit two's complement (exact), not mathematical integers",
+                  "the textual lowering of tools/slice.py preserves the meaning of the sliced C++ text (rules fired are listed per unit in coverage.sliced_units)"]
+_MODEL_ASSUME = ["models/intrin.h and models/simdwrap.h agree with the CPU / the real simd.h classes (sampled on every run, not proved)"]
+_INFO = {
+ "C04": dict(assumptions=["simd_str2int is an ASSUMED scalar contract (reads 16 bytes, value and count of the leading <= man_nd digits); its SIMD body is not modelled",
+                          "AtofEiselLemire64, ParseFloatingNormalFast and AtofNative are contract-only stubs (preconditions asserted, results nondeterministic)",
+                          "bounded: text length <= 12 (any shape), <= 30 ([-]0.00...0 + 3 bytes), <= 27 (>= 22 digits + 3 bytes); <= 26 any shape in the thorough tier"],
+             undecided=["correct rounding of every converter path (exact small, table multiply, Eisel-Lemire, truncated-mantissa retry, big-decimal fallback)",
+                        "the infinity decision of the fallback (bit pattern of DecimalToF64 overflow exits)", "simd_str2int's digit arithmetic"]),
+ "C05": dict(assumptions=[], undecided=["the in-place loop parseStringInplace (find / cont / find_and_move phases, scalar tail): bounded jobs did not finish; only its leaves are decided",
+                                        "the key / on-demand-key call sites beyond what C11's driver job checks"]),
+ "C06": dict(assumptions=["realloc never fails (--no-malloc-may-fail): the code asserts a non-null result", "stated preconditions: Reserve(n >= 1); Grow(0) only with capacity >= 1",
+                          "capacities and requests <= 2^38 / 2^40", "SerializeImpl job: F64toa writes and emits at most 32 bytes (C07, undecided); node tree over-approximated by a nondeterministic node array; each goto back-edge traversed at most once"],
+             undecided=["validity of the emitted text as RFC 8259 JSON", "parse-back equality and idempotent re-serialisation", "reservations that are only exhausted after many nodes", "error paths returning kSerErrorInfinity / empty Dump"]),
+ "C08": dict(assumptions=["unsigned division by a positive constant is monotone (only the end points are machine-checked)", "positional notation: dec(h*10^k + l) = dec(h) ++ pad_k(l) for l < 10^k",
+                          "the 8-digit kernels are decided by exhaustive enumeration of the code compiled by g++ -O2 on this machine, not deductively"], undecided=[]),
+ "C09": dict(assumptions=["nb <= 2^31-1"], undecided=["Quote's own loops: tail page guard, tail mask, total extent 6n+2, byte-exact output (four verification routes did not finish)",
+                                                        "DoEscape byte-exactness beyond runs of 4 escaped bytes"]),
+ "C11": dict(assumptions=["len <= 2^31-1 (2^31-65 for container skipping and the scanner members)", "driver job: std::vector<uint8_t>, GenericJsonPointer, memcpy, memcmp and parseStringInplace are contract stubs; path <= 3 steps, each goto back-edge <= 2 traversals"],
+             undecided=["SkipContainer in the quick tier (its unbounded proof runs in the thorough tier only, about 20 min per instantiation)", "driver paths with more back-edge traversals than the bound"]),
+ "C14": dict(assumptions=["operands live in objects made of whole 4096-byte pages (s < 32) or exact-size heap blocks (s >= 32); s <= 2^31-1", "libc memcmp is an uninterpreted function in the sse forwarder job"],
+             undecided=["findMemberImpl's linear scan and std::multimap lookup themselves (DOM classes); only the comparator and the byte-compare kernels are decided", "sign of InlinedMemcmp for s > 159 (unbounded job proves only: result 0 implies equal bytes)"]),
+ "C15": dict(assumptions=["GCC's ifunc resolver picks one of the checked wrappers; -march code generation is correct"],
+             undecided=["SkipContainer, Quote, parseStringInplace, the DOM parse driver and the serializer across configurations", "SkipString for len > 40 (relational)", "production vs sanitizer preprocessor paths other than in_page_32 / is_eq_lt_32 / cmp_lt_32 (C14)"]),
+ "C16": dict(assumptions=["BaseAllocator::Malloc returns null or a fresh suitably aligned block; Free releases it (stub)", "libc memcpy copies n bytes (contract)", "sizes, capacities and the policy's chunk size <= 2^48"],
+             undecided=["constructors (member-initialiser lists, user buffer alignment), move construction / assignment", "chunk lists longer than 3 in Clear / Size / Capacity / destructor / copy assignment", "the locked-allocator option (C17)"]),
+}
+for _p, _d in _INFO.items():
+    PROPS[_p]["assumptions"] = _COMMON_ASSUME + (_MODEL_ASSUME if _p in ("C05", "C09", "C11", "C14", "C15", "C08") else []) + _d["assumptions"]
+    PROPS[_p]["undecided"] = _d["undecided"]
